@@ -196,6 +196,54 @@ def c17(ctx):
                     kind = 'spec'
                     ctx.violation(kind, f'get_file_metadata({hs}) returned {str(res)[:200]}, expected {str(want)[:200]}',
                                   {'hashes': hs, 'length': ln})
+        # the size reported by fstat is only a hint (sysfs, network filesystems, a file that grows while it is read):
+        # digests and __size__ describe the bytes read, for any hash set - the empty one included
+        import stat as _stat
+        real_fstat = os.fstat
+        wrong = 0
+        for ln in [1, 300, 70000]:
+            data = big[:ln]
+            p = os.path.join(td, 'h')
+            open(p, 'wb').write(data)
+            for hint in [0, ln - 1, ln + 5, 4096, 2 * ln]:
+                if hint == ln:
+                    continue
+                for hs in ([], ['SHA1', 'MD5'], ['SHA512']):
+                    def fake(fd, hint=hint):
+                        st = real_fstat(fd)
+                        if _stat.S_ISREG(st.st_mode) and st.st_size == ln:
+                            return os.stat_result((st.st_mode, st.st_ino, st.st_dev, st.st_nlink, st.st_uid, st.st_gid, hint,
+                                                   st.st_atime, st.st_mtime, st.st_ctime))
+                        return st
+                    k += 1
+                    wrong += 1
+                    os.fstat = fake
+                    try:
+                        g = gv.get_file_metadata(p, hs)
+                        try:
+                            res = ['ok', list(g)[-1]]
+                        except Exception as e:
+                            res = impl.exc_sx(e)
+                        finally:
+                            g.close()
+                        # and through verify_path on an entry claiming the hinted size
+                        import gemato.manifest as gm
+                        ent = gm.ManifestEntryDATA('h', hint, {})
+                        try:
+                            vres = gv.verify_path(p, ent)
+                        except Exception as e:
+                            vres = impl.exc_sx(e)
+                    finally:
+                        os.fstat = real_fstat
+                    lib = {'SHA1': 'sha1', 'MD5': 'md5', 'SHA512': 'sha512'}
+                    want = ['ok', dict([(e, ref_digest(lib[e], data)) for e in hs] + [('__size__', ln)])]
+                    if res != want:
+                        ctx.violation('spec', f'get_file_metadata({hs}) with fstat reporting {hint} for a {ln}-byte file returned {str(res)[:200]}',
+                                      {'hashes': hs, 'length': ln, 'st_size': hint})
+                    # an entry of size `hint` must not verify against ln bytes (hint != ln): a size mismatch
+                    if not (isinstance(vres, tuple) and vres[0] is False):
+                        ctx.violation('spec', f'verify_path accepted a size-only entry of size {hint} for a file of {ln} bytes (fstat reports {hint}): {str(vres)[:120]}',
+                                      {'length': ln, 'st_size': hint})
         # coreutils as an independent reference
         p = os.path.join(td, 'g')
         open(p, 'wb').write(big[:70001])
@@ -227,4 +275,4 @@ def c17(ctx):
     finally:
         import shutil
         shutil.rmtree(td, ignore_errors=True)
-    ctx.count('hash:names', k, k, dist={'available': avail})
+    ctx.count('hash:names', k, k, dist={'available': avail, 'runs_with_a_wrong_st_size': wrong})
